@@ -27,8 +27,11 @@ def build() -> None:
 def fill_byte(addr: int, k: int) -> int:
     if k == 0:
         return 0
-    x = ((addr & 0xFFFFFFFF) * 2654435761 + k * 40503) & 0xFFFFFFFFFFFFFFFF
-    return ((x >> 7) ^ (x >> 15) ^ (x >> 23)) & 0xFF
+    x = ((addr & 0xFFFFFFFF) * 2654435761 + (k & 0xFF) * 40503) & 0xFFFFFFFFFFFFFFFF
+    b = ((x >> 7) ^ (x >> 15) ^ (x >> 23)) & 0xFF
+    if (k & 0x100) and 0x100000 <= addr < 0x100100:
+        return b & 0x0F
+    return b
 
 
 class Harness:
